@@ -3,7 +3,7 @@ Require Extraction.
 Require Import ExtrOcamlBasic.
 From Coq Require Import ZArith.
 From Verif.C18 Require Import ModelBase Extracted Model.
-Extraction "model_ml.ml" apply_mut apply apply_config init new_config cfields ofields
+Extraction "model_ml.ml" apply_mut apply apply_config init init_repo new_config empty_store open_config open_raw_ok cfields ofields
   check_rabin_params chunker_new chunker_progress rabin_next_arith
   sizer_of_config pack_size is_too_small is_too_large
   max_unused_limit max_repack_limit config_wf opts_wf writes apply_steps
